@@ -285,32 +285,7 @@ func runAsm(in *asmInput) (hx.Case, error) {
 		}
 	}
 
-	// number kinds and locations
-	kinds := map[string]uint64{"req_in": 1, "req_out": 2, "pipeline": 3, "incoming_buffer": 4, "outgoing_buffer": 5}
-	locs := map[string]uint64{}
-	evs := make([]string, 0, len(log)+3)
-	for _, e := range log {
-		switch e.K {
-		case "s":
-			k, ok := kinds[e.Kind]
-			if !ok {
-				k = uint64(len(kinds) + 1)
-				kinds[e.Kind] = k
-			}
-			l, ok := locs[e.Loc]
-			if !ok {
-				l = uint64(len(locs) + 1)
-				locs[e.Loc] = l
-			}
-			evs = append(evs, hx.App("TStart", hx.N(e.ID), hx.N(e.Parent), hx.N(k), hx.N(l), hx.N(e.T)))
-		case "e":
-			evs = append(evs, hx.App("TEnd", hx.N(e.ID), hx.N(e.T)))
-		case "g":
-			evs = append(evs, hx.App("TTag", hx.N(e.Task), hx.N(e.T)))
-		case "m":
-			evs = append(evs, hx.App("TMile", hx.N(e.Task), hx.N(e.T)))
-		}
-	}
+	term := traceTerm(log) // kinds, locations numbered; task IDs renumbered densely
 	for _, d := range o.Regs {
 		if d < 0 {
 			return hx.Case{}, fmt.Errorf("registry shrank during the case: %v", o.Regs)
@@ -338,7 +313,7 @@ func runAsm(in *asmInput) (hx.Case, error) {
 		c.Obs = o
 	}
 	goVerdict := first == "" && (!quiescent || o.Regs == [3]int{})
-	c.Coq = hx.App("AsmCase", hx.B(quiescent), hx.L(evs),
+	c.Coq = hx.App("AsmCase", hx.B(quiescent), term,
 		hx.T(hx.N(uint64(o.Regs[0])), hx.N(uint64(o.Regs[1])), hx.N(uint64(o.Regs[2]))), hx.B(goVerdict))
 	c.Tags, c.Nontrivial = asmShape(in, o)
 	c.Known = knownClass(in)
@@ -803,15 +778,19 @@ func init() {
 			"tracing on every port; the script is 2-3 stretches of traffic over disjoint line pools separated by control histories (legal " +
 			"Pause/Drain -> Invalidate/Flush -> Enable sequences, illegal/unsupported verbs, Pause->Reset, and Reset of the top k modules " +
 			"in the middle of traffic) and ends with Enable+Reset of every module top-down, then bottom-up; run to quiescence. " +
-			"vm: a translation stack driver -> TLB0 -> [TLB1] -> MMU (page table) of real components, traced the same way, driven with " +
-			"translation requests and control verbs (Pause/Invalidate/Enable, Drain/Enable, Reset of the top k modules mid-traffic) " +
-			"and the same closing rounds. A history counts as quiescent only if the whole script was issued and every control verb " +
+			"vm: a translation stack driver -> [address translator] -> 0..2 TLBs -> [MMU cache] -> MMU or GMMU (page table; a third of " +
+			"the pages owned by a remote device the driver answers for) of real components, traced the same way, driven with " +
+			"page-aligned translation requests (reads/writes when the address translator is on top; the driver is then the memory below " +
+			"it) and control verbs on any module (Pause/Invalidate/Enable followed by Reset of the modules above, Drain/Enable, Reset of " +
+			"the top k modules mid-traffic) and the same closing rounds. A history counts as quiescent only if the whole script was issued and every control verb " +
 			"was acknowledged. " +
 			"lm: one banked / ideal memory module driven directly with one- or two-slot buffers on every port (Control included) and " +
 			"control verbs issued back to back. " +
 			"api: random interleavings of request / buffer / subtask lifecycles over 1-3 domains and real ports, each closed by the normal " +
 			"helper or by the reset helper, plus scripts left open. Non-trivial: asm with a Reset in the middle of traffic, >= 20 tasks and " +
-			"the script completed; api closed with resets and >= 5 tasks. Distinct = distinct input hash.",
+			"the script completed; api closed with resets and >= 5 tasks. Distinct = distinct input hash. Quick tier: an assembly whose " +
+			"trace exceeds 3000 events is drawn again (up to 3 times). Sampled traces reach Coq with task IDs renumbered 1,2,3.. in order " +
+			"of first appearance (the acceptor compares IDs only for equality).",
 		Gen: gen, Run: run, Shrink: shrink,
 	})
 }
